@@ -37,10 +37,16 @@ static void scenario(int k1, int k2, int s1, int s2, int s3)
         if(!prog_try_run(k) && !p_done[k] && g_sched[k] == 1) gated_polls++;
     }
     prog_check_final();
-    if(k2 == 1 && T1_KIND == 0 && gated_polls >= 1 && ran_early == 1) VWITNESS("writer T2 polled its gate while reader T1 was pending; T0 ran between the insertions");
-    if(k2 == 3 && s3 == 5 && ran_early == 0) VWITNESS("independent tile: T2 ran before T1 and T0");
-    if(T1_KIND == 3 && k2 == 4 && s3 == 5) VWITNESS("reader of B tried first in the drain");
-    if(T1_KIND != 3 && T1_KIND != 0 && k2 == 0 && ran_early == 2) VWITNESS("both writers completed before the reader was inserted");
+#if T1_KIND == 0
+    if(k2 == 1 && gated_polls >= 1 && ran_early == 1) VWITNESS("writer T2 polled its gate while reader T1 was pending; T0 ran between the insertions");
+#endif
+    if(k2 == 3 && s3 == 5 && ran_early == 0) VWITNESS("T2 on the other tile tried first in the drain, nothing ran before");
+#if T1_KIND == 3
+    if(k2 == 4 && s3 == 5) VWITNESS("reader of B tried first in the drain");
+#endif
+#if T1_KIND == 1 || T1_KIND == 2
+    if(k2 == 0 && ran_early == 2) VWITNESS("both writers completed before the reader was inserted");
+#endif
 }
 
 int main(void)
